@@ -140,6 +140,26 @@ ROUND9 = {
     'C18': " Round 9: the run id comes from a source that differs between forked filter processes; nothing of run() can fail between the construction of the filter and init().",
 }
 
+# obligations added in round 10 (and by the mutation sweeps of lineage.py, bridge.py, cli/common.py, rolllog.py)
+ROUND10 = {
+    'C01': " Round 10: the mark that takes a source out of the id synchronisation is read off the end of its address only; share of C02.R13.",
+    'C02': " Round 10: a second message for a topic of the current id replaces the stored one (share of C01.R11); the topic name whose frame is the control frame (the empty name) is refused before any state changes.",
+    'C03': " Round 10: the empty topic name is refused (share of C02.R5).",
+    'C04': " Round 10: a relay waits for its outputs without bound unless outputs_timeout was configured.",
+    'C06': " Round 10: the age of a client is the time since its last request (publishing does not refresh it); ipc socket files are removed at shutdown only if they still are the ones this instance bound; a balanced receiver's lock is released with the half set it belongs to.",
+    'C07': " Round 10: an overtaken frame is discarded, never published under a newer id (share of C02.R3).",
+    'C08': " Round 10: the exit announcement must not travel through a queue that drops (known finding D81).",
+    'C09': " Round 10: share of the empty-topic obligation of C02.R5.",
+    'C10': " Round 10: Frame.decode forces the number of planes its label says (share of C09.R5).",
+    'C12': " Round 10: decision senses of the wiring loops (duplicate test, rewrite conditions, reservations, deletions of empty entries, write-back) read off the effective guards including the early-exit idiom; ports given in URLs of any scheme and as --port are reserved.",
+    'C13': " Round 10: refresh rescans the directory; a vanished file is skipped for good; seek() compares the timestamp of a file name in the unit of the listed ones; read() returns whole records only (an unterminated tail is put back).",
+    'C14': " Round 10: share of C13.R14 (a restart whose file was pruned lands on the first newer file).",
+    'C15': " Round 10: bind / connect errors of the ZeroMQ layer carry the masked address only; a percent-decoded value cannot be made maskable again.",
+    'C16': " Round 10: the suffix tests select the numeric branch in the positive sense; raw subject data is opt-in; no helper changes the length of a list field between the heartbeat facet and the event.",
+    'C17': " Round 10: every transformed image goes back under the topic its result carries.",
+    'C18': " Round 10: the facet key normaliser lists the facet's own names in a positive membership test.",
+}
+
 NOT_APPLICABLE = {
     'C11': 'Every clause is an equality between values computed by string parsing over an unbounded grammar; there is no renderer to pair with the parsers and the only structural facts in reach are already caught by the existing test_normalize_config tests, so a static proxy would detect nothing new (DESIGN.md §5).',
 }
@@ -154,7 +174,7 @@ def main():
         if pid not in reg:
             continue
         tech, text, ref, nd = CLAIMS[pid]
-        text += ROUND6.get(pid, '') + ROUND7.get(pid, '') + ROUND8.get(pid, '') + ROUND9.get(pid, '')
+        text += ROUND6.get(pid, '') + ROUND7.get(pid, '') + ROUND8.get(pid, '') + ROUND9.get(pid, '') + ROUND10.get(pid, '')
         checks.append({
             'property_id': pid,
             'quick_cmd': f'./check {pid} --tier quick',
